@@ -321,3 +321,296 @@ Theorem C16_tm_scale_refuted_inst : exists (a : R) (P : params R) (trs : list (t
     <> map (map (fun r => set_mu_sigma r (a * r_mu r) (a * r_sigma r))) (compute (H := RNum GaussInst.PhiK GaussInst.PhiinvK) TMF P trs).
 Proof. exact (C16_tm_scale_refuted GaussInst.PhiK GaussInst.PhiinvK GaussFull.GaussFacts_inst). Qed.
 Print Assumptions C16_tm_scale_refuted_inst.
+
+From Flocq Require Core.Zaux Core.Raux Core.Generic_fmt Core.FLX IEEE754.BinarySingleNaN IEEE754.Binary IEEE754.Bits.
+From OSV.Lemmas Require FloatScaleL.
+
+(** ** Unit of the scale, WITH ROUNDING: a power-of-two factor is exact in floating point
+
+    The theorems above are over the reals.  Here the same scale law is proved for a model of
+    floating-point arithmetic in which every operation rounds: [FloatScaleL.FlxNum ex erfc icdf pw2
+    : Num R] computes every [+ - * / sqrt], every int-to-float conversion and every constant with
+    the rounding [FloatScaleL.rnd] = round to nearest, ties to even, to 53 significant bits with
+    unbounded exponent range (Flocq's format FLX, radix 2, precision 53); comparisons, negation
+    and absolute value are exact; [exp], [erfc], [inv_cdf] are ARBITRARY functions [ex], [erfc],
+    [icdf] (nothing is assumed about them: they receive identical arguments in the two runs);
+    [x ** 2] is a function [pw2] assumed homogeneous for the factor at hand (the correctly rounded
+    square is: [C16_pow2_scale_flx53_square_ex]).  [C16_flx53_instance] spells the instance out.
+
+    Result: if every mu, sigma, beta (and tau) is multiplied by 2^k (k any integer), all three
+    predictions are bit-for-bit unchanged and the posterior mu, sigma of Plackett-Luce and both
+    Bradley-Terry models are exactly 2^k times the original ones -- rounding cannot break the
+    scale law for a power-of-two unit change.  The statements hold for ALL inputs (no domain
+    hypotheses; outside the domain of the Python code, where it raises ZeroDivisionError /
+    ValueError, Coq's totalised [x / 0 = 0] and [sqrt] of a negative number [= 0] scale
+    consistently too -- the statements restricted to the domain are instances of these).
+
+    Relation to the doubles the code computes: IEEE binary64 agrees with this arithmetic
+    operation by operation as long as no result overflows or falls in the subnormal range
+    ([C16_flx53_agrees_with_binary64_plus] etc.).  The gamma premise is stated for all arguments
+    (the real-number theorems need it only for c > 0, sigma^2 > 0); the default callback
+    satisfies it ([C16_gamma_default_pow2_scale_flx53]). *)
+
+(** what the instance is *)
+Theorem C16_flx53_instance : forall (ex erfc icdf pw2 : R -> R) (a b : R) (z : Z),
+  FloatScaleL.rnd = Generic_fmt.round Zaux.radix2 (FLX.FLX_exp 53) (Generic_fmt.Znearest (fun x => negb (Z.even x))) /\
+  fadd (Num := FloatScaleL.FlxNum ex erfc icdf pw2) a b = FloatScaleL.rnd (a + b) /\
+  fsub (Num := FloatScaleL.FlxNum ex erfc icdf pw2) a b = FloatScaleL.rnd (a - b) /\
+  fmul (Num := FloatScaleL.FlxNum ex erfc icdf pw2) a b = FloatScaleL.rnd (a * b) /\
+  fdiv (Num := FloatScaleL.FlxNum ex erfc icdf pw2) a b = FloatScaleL.rnd (a / b) /\
+  fsqrt (Num := FloatScaleL.FlxNum ex erfc icdf pw2) a = FloatScaleL.rnd (sqrt a) /\
+  fneg (Num := FloatScaleL.FlxNum ex erfc icdf pw2) a = - a /\
+  fabs (Num := FloatScaleL.FlxNum ex erfc icdf pw2) a = Rabs a /\
+  fexp (Num := FloatScaleL.FlxNum ex erfc icdf pw2) a = ex a /\
+  ferfc (Num := FloatScaleL.FlxNum ex erfc icdf pw2) a = erfc a /\
+  ficdf (Num := FloatScaleL.FlxNum ex erfc icdf pw2) a = icdf a /\
+  fpow2 (Num := FloatScaleL.FlxNum ex erfc icdf pw2) a = pw2 a /\
+  fofZ (Num := FloatScaleL.FlxNum ex erfc icdf pw2) z = FloatScaleL.rnd (IZR z) /\
+  ftau (Num := FloatScaleL.FlxNum ex erfc icdf pw2) = FloatScaleL.rnd (2 * PI) /\
+  (fltb (Num := FloatScaleL.FlxNum ex erfc icdf pw2) a b = true <-> a < b) /\
+  (fleb (Num := FloatScaleL.FlxNum ex erfc icdf pw2) a b = true <-> a <= b) /\
+  (feqb (Num := FloatScaleL.FlxNum ex erfc icdf pw2) a b = true <-> a = b).
+Proof. intros; repeat split; try reflexivity; try apply Rltb_true; try apply Rleb_true; apply Reqb_true. Qed.
+Print Assumptions C16_flx53_instance.
+
+(** the key fact: rounding commutes with multiplication by a power of two *)
+Theorem C16_rnd_pow2_flx53 : forall (k : Z) (x : R),
+  FloatScaleL.rnd (powerRZ 2 k * x) = powerRZ 2 k * FloatScaleL.rnd x.
+Proof. exact FloatScaleL.rnd_powerRZ2. Qed.
+Print Assumptions C16_rnd_pow2_flx53.
+
+(** non-vacuity of the premise on [x ** 2] in the theorems below: the correctly rounded square
+    satisfies it for every k *)
+Example C16_pow2_scale_flx53_square_ex : forall (k : Z) (x : R),
+  FloatScaleL.rnd (powerRZ 2 k * x * (powerRZ 2 k * x)) = powerRZ 2 k * powerRZ 2 k * FloatScaleL.rnd (x * x).
+Proof. exact FloatScaleL.pw2_rnd_sq_powerRZ2. Qed.
+
+(** [predict_win] of the model rescaled by 2^k on the game rescaled by 2^k is unchanged *)
+Theorem C16_predict_win_pow2_scale_flx53 : forall (ex erfc icdf pw2 : R -> R) (k : Z),
+  (forall x, pw2 (powerRZ 2 k * x) = powerRZ 2 k * powerRZ 2 k * pw2 x) ->
+  forall (beta : R) (teams : list (list (rating R))),
+  predict_win (H := FloatScaleL.FlxNum ex erfc icdf pw2) (powerRZ 2 k * beta)
+    (map (map (fun r => set_mu_sigma r (powerRZ 2 k * r_mu r) (powerRZ 2 k * r_sigma r))) teams)
+  = predict_win (H := FloatScaleL.FlxNum ex erfc icdf pw2) beta teams.
+Proof. exact FloatScaleL.predict_win_pow2_scale_flx53. Qed.
+Print Assumptions C16_predict_win_pow2_scale_flx53.
+
+(** likewise [predict_draw] *)
+Theorem C16_predict_draw_pow2_scale_flx53 : forall (ex erfc icdf pw2 : R -> R) (k : Z),
+  (forall x, pw2 (powerRZ 2 k * x) = powerRZ 2 k * powerRZ 2 k * pw2 x) ->
+  forall (beta : R) (teams : list (list (rating R))),
+  predict_draw (H := FloatScaleL.FlxNum ex erfc icdf pw2) (powerRZ 2 k * beta)
+    (map (map (fun r => set_mu_sigma r (powerRZ 2 k * r_mu r) (powerRZ 2 k * r_sigma r))) teams)
+  = predict_draw (H := FloatScaleL.FlxNum ex erfc icdf pw2) beta teams.
+Proof. exact FloatScaleL.predict_draw_pow2_scale_flx53. Qed.
+Print Assumptions C16_predict_draw_pow2_scale_flx53.
+
+(** likewise the probabilities of [predict_rank] and its whole result (ranks and probabilities) *)
+Theorem C16_predict_rank_pow2_scale_flx53 : forall (ex erfc icdf pw2 : R -> R) (k : Z),
+  (forall x, pw2 (powerRZ 2 k * x) = powerRZ 2 k * powerRZ 2 k * pw2 x) ->
+  forall (beta : R) (teams : list (list (rating R))),
+  predict_rank_probs (H := FloatScaleL.FlxNum ex erfc icdf pw2) (powerRZ 2 k * beta)
+    (map (map (fun r => set_mu_sigma r (powerRZ 2 k * r_mu r) (powerRZ 2 k * r_sigma r))) teams)
+  = predict_rank_probs (H := FloatScaleL.FlxNum ex erfc icdf pw2) beta teams /\
+  predict_rank (H := FloatScaleL.FlxNum ex erfc icdf pw2) (powerRZ 2 k * beta)
+    (map (map (fun r => set_mu_sigma r (powerRZ 2 k * r_mu r) (powerRZ 2 k * r_sigma r))) teams)
+  = predict_rank (H := FloatScaleL.FlxNum ex erfc icdf pw2) beta teams.
+Proof.
+  intros; split; [apply FloatScaleL.predict_rank_probs_pow2_scale_flx53 | apply FloatScaleL.predict_rank_pow2_scale_flx53]; assumption.
+Qed.
+Print Assumptions C16_predict_rank_pow2_scale_flx53.
+
+Example C16_predict_pow2_scale_flx53_ex : forall ex erfc icdf : R -> R,
+  let N := FloatScaleL.FlxNum ex erfc icdf (fun x => FloatScaleL.rnd (x * x)) in
+  let teams := [[mkRating 25 (25 / 3) 0%Z NmNone; mkRating 30 5 1%Z NmNone]; [mkRating 20 4 2%Z NmNone];
+                [mkRating 27 0 3%Z NmNone]] in
+  predict_draw (powerRZ 2 (-3) * (25 / 6))
+    (map (map (fun r => set_mu_sigma r (powerRZ 2 (-3) * r_mu r) (powerRZ 2 (-3) * r_sigma r))) teams)
+  = predict_draw (25 / 6) teams.
+Proof.
+  intros. apply (C16_predict_draw_pow2_scale_flx53 ex erfc icdf (fun x => FloatScaleL.rnd (x * x)) (-3)%Z).
+  apply C16_pow2_scale_flx53_square_ex.
+Qed.
+
+(** the default gamma callback is scale free in rounded arithmetic (all arguments) *)
+Theorem C16_gamma_default_pow2_scale_flx53 : forall (ex erfc icdf pw2 : R -> R) (k : Z),
+  (forall x, pw2 (powerRZ 2 k * x) = powerRZ 2 k * powerRZ 2 k * pw2 x) ->
+  forall (c : R) (n : nat) (mu ss : R) (team : list (rating R)) (rank : nat),
+  gamma_default (H := FloatScaleL.FlxNum ex erfc icdf pw2) (powerRZ 2 k * c) n (powerRZ 2 k * mu)
+    (powerRZ 2 k * powerRZ 2 k * ss)
+    (map (fun r => set_mu_sigma r (powerRZ 2 k * r_mu r) (powerRZ 2 k * r_sigma r)) team) rank
+  = gamma_default (H := FloatScaleL.FlxNum ex erfc icdf pw2) c n mu ss team rank.
+Proof. exact FloatScaleL.gamma_default_pow2_scale_flx53. Qed.
+Print Assumptions C16_gamma_default_pow2_scale_flx53.
+
+(** [_compute] of Plackett-Luce and of both Bradley-Terry models on team ratings rescaled by 2^k
+    returns exactly the rescaled players *)
+Theorem C16_compute_pow2_scale_flx53 : forall (ex erfc icdf pw2 : R -> R) (k : Z),
+  (forall x, pw2 (powerRZ 2 k * x) = powerRZ 2 k * powerRZ 2 k * pw2 x) ->
+  forall (P : params R) (g' : gamma_fn R),
+  (forall c n mu ss team rank,
+     g' (powerRZ 2 k * c) n (powerRZ 2 k * mu) (powerRZ 2 k * powerRZ 2 k * ss)
+        (map (fun r => set_mu_sigma r (powerRZ 2 k * r_mu r) (powerRZ 2 k * r_sigma r)) team) rank
+     = p_gamma P c n mu ss team rank) ->
+  forall (kd : kind) (trs : list (trating R)), kd = PL \/ kd = BTF \/ kd = BTP ->
+  compute (H := FloatScaleL.FlxNum ex erfc icdf pw2) kd (mkParams (powerRZ 2 k * p_beta P) (p_kappa P) g')
+    (map (fun t => mkT (powerRZ 2 k * t_mu t) (powerRZ 2 k * powerRZ 2 k * t_ss t)
+                       (map (fun r => set_mu_sigma r (powerRZ 2 k * r_mu r) (powerRZ 2 k * r_sigma r)) (t_team t))
+                       (t_rank t)) trs)
+  = map (map (fun r => set_mu_sigma r (powerRZ 2 k * r_mu r) (powerRZ 2 k * r_sigma r)))
+        (compute (H := FloatScaleL.FlxNum ex erfc icdf pw2) kd P trs).
+Proof. exact FloatScaleL.compute_pow2_scale_flx53. Qed.
+Print Assumptions C16_compute_pow2_scale_flx53.
+
+(** [rate] (tau inflation, sort by rank, update, unsort, optional sigma clamp) of the model
+    rescaled by 2^k on the game rescaled by 2^k returns exactly the rescaled result: every
+    posterior mu and sigma is 2^k times the original one, with every operation rounded *)
+Theorem C16_rate_pow2_scale_flx53 : forall (ex erfc icdf pw2 : R -> R) (k : Z),
+  (forall x, pw2 (powerRZ 2 k * x) = powerRZ 2 k * powerRZ 2 k * pw2 x) ->
+  forall (P : params R) (g' : gamma_fn R),
+  (forall c n mu ss team rank,
+     g' (powerRZ 2 k * c) n (powerRZ 2 k * mu) (powerRZ 2 k * powerRZ 2 k * ss)
+        (map (fun r => set_mu_sigma r (powerRZ 2 k * r_mu r) (powerRZ 2 k * r_sigma r)) team) rank
+     = p_gamma P c n mu ss team rank) ->
+  forall (kd : kind) (tau : R) (limit_sigma : bool) (teams : list (list (rating R))) (keys : option (list key)),
+  kd = PL \/ kd = BTF \/ kd = BTP ->
+  rate_core (H := FloatScaleL.FlxNum ex erfc icdf pw2) kd (mkParams (powerRZ 2 k * p_beta P) (p_kappa P) g')
+    (powerRZ 2 k * tau) limit_sigma
+    (map (map (fun r => set_mu_sigma r (powerRZ 2 k * r_mu r) (powerRZ 2 k * r_sigma r))) teams) keys
+  = map (map (fun r => set_mu_sigma r (powerRZ 2 k * r_mu r) (powerRZ 2 k * r_sigma r)))
+        (rate_core (H := FloatScaleL.FlxNum ex erfc icdf pw2) kd P tau limit_sigma teams keys).
+Proof. exact FloatScaleL.rate_pow2_scale_flx53. Qed.
+Print Assumptions C16_rate_pow2_scale_flx53.
+
+(** the three kinds separately *)
+Theorem C16_rate_btf_pow2_scale_flx53 : forall (ex erfc icdf pw2 : R -> R) (k : Z),
+  (forall x, pw2 (powerRZ 2 k * x) = powerRZ 2 k * powerRZ 2 k * pw2 x) ->
+  forall (P : params R) (g' : gamma_fn R),
+  (forall c n mu ss team rank,
+     g' (powerRZ 2 k * c) n (powerRZ 2 k * mu) (powerRZ 2 k * powerRZ 2 k * ss)
+        (map (fun r => set_mu_sigma r (powerRZ 2 k * r_mu r) (powerRZ 2 k * r_sigma r)) team) rank
+     = p_gamma P c n mu ss team rank) ->
+  forall (tau : R) (limit_sigma : bool) (teams : list (list (rating R))) (keys : option (list key)),
+  rate_core (H := FloatScaleL.FlxNum ex erfc icdf pw2) BTF (mkParams (powerRZ 2 k * p_beta P) (p_kappa P) g')
+    (powerRZ 2 k * tau) limit_sigma
+    (map (map (fun r => set_mu_sigma r (powerRZ 2 k * r_mu r) (powerRZ 2 k * r_sigma r))) teams) keys
+  = map (map (fun r => set_mu_sigma r (powerRZ 2 k * r_mu r) (powerRZ 2 k * r_sigma r)))
+        (rate_core (H := FloatScaleL.FlxNum ex erfc icdf pw2) BTF P tau limit_sigma teams keys).
+Proof. intros; apply FloatScaleL.rate_pow2_scale_flx53; auto. Qed.
+Print Assumptions C16_rate_btf_pow2_scale_flx53.
+
+Theorem C16_rate_btp_pow2_scale_flx53 : forall (ex erfc icdf pw2 : R -> R) (k : Z),
+  (forall x, pw2 (powerRZ 2 k * x) = powerRZ 2 k * powerRZ 2 k * pw2 x) ->
+  forall (P : params R) (g' : gamma_fn R),
+  (forall c n mu ss team rank,
+     g' (powerRZ 2 k * c) n (powerRZ 2 k * mu) (powerRZ 2 k * powerRZ 2 k * ss)
+        (map (fun r => set_mu_sigma r (powerRZ 2 k * r_mu r) (powerRZ 2 k * r_sigma r)) team) rank
+     = p_gamma P c n mu ss team rank) ->
+  forall (tau : R) (limit_sigma : bool) (teams : list (list (rating R))) (keys : option (list key)),
+  rate_core (H := FloatScaleL.FlxNum ex erfc icdf pw2) BTP (mkParams (powerRZ 2 k * p_beta P) (p_kappa P) g')
+    (powerRZ 2 k * tau) limit_sigma
+    (map (map (fun r => set_mu_sigma r (powerRZ 2 k * r_mu r) (powerRZ 2 k * r_sigma r))) teams) keys
+  = map (map (fun r => set_mu_sigma r (powerRZ 2 k * r_mu r) (powerRZ 2 k * r_sigma r)))
+        (rate_core (H := FloatScaleL.FlxNum ex erfc icdf pw2) BTP P tau limit_sigma teams keys).
+Proof. intros; apply FloatScaleL.rate_pow2_scale_flx53; auto. Qed.
+Print Assumptions C16_rate_btp_pow2_scale_flx53.
+
+Theorem C16_rate_pl_pow2_scale_flx53 : forall (ex erfc icdf pw2 : R -> R) (k : Z),
+  (forall x, pw2 (powerRZ 2 k * x) = powerRZ 2 k * powerRZ 2 k * pw2 x) ->
+  forall (P : params R) (g' : gamma_fn R),
+  (forall c n mu ss team rank,
+     g' (powerRZ 2 k * c) n (powerRZ 2 k * mu) (powerRZ 2 k * powerRZ 2 k * ss)
+        (map (fun r => set_mu_sigma r (powerRZ 2 k * r_mu r) (powerRZ 2 k * r_sigma r)) team) rank
+     = p_gamma P c n mu ss team rank) ->
+  forall (tau : R) (limit_sigma : bool) (teams : list (list (rating R))) (keys : option (list key)),
+  rate_core (H := FloatScaleL.FlxNum ex erfc icdf pw2) PL (mkParams (powerRZ 2 k * p_beta P) (p_kappa P) g')
+    (powerRZ 2 k * tau) limit_sigma
+    (map (map (fun r => set_mu_sigma r (powerRZ 2 k * r_mu r) (powerRZ 2 k * r_sigma r))) teams) keys
+  = map (map (fun r => set_mu_sigma r (powerRZ 2 k * r_mu r) (powerRZ 2 k * r_sigma r)))
+        (rate_core (H := FloatScaleL.FlxNum ex erfc icdf pw2) PL P tau limit_sigma teams keys).
+Proof. intros; apply FloatScaleL.rate_pow2_scale_flx53; auto. Qed.
+Print Assumptions C16_rate_pl_pow2_scale_flx53.
+
+(** non-vacuity: the correctly rounded square, the default gamma callback, a three-team game
+    with a tie, unit change by 2^5 *)
+Example C16_rate_pow2_scale_flx53_ex : forall ex erfc icdf : R -> R,
+  let N := FloatScaleL.FlxNum ex erfc icdf (fun x => FloatScaleL.rnd (x * x)) in
+  let P := mkParams (25 / 6) (1 / 10000) gamma_default in
+  let teams := [[mkRating 25 (25 / 3) 0%Z NmNone; mkRating 30 5 1%Z NmNone]; [mkRating 20 4 2%Z NmNone];
+                [mkRating 27 0 3%Z NmNone]] in
+  rate_core BTP (mkParams (powerRZ 2 5 * p_beta P) (p_kappa P) gamma_default) (powerRZ 2 5 * (1 / 12)) true
+    (map (map (fun r => set_mu_sigma r (powerRZ 2 5 * r_mu r) (powerRZ 2 5 * r_sigma r))) teams)
+    (Some [(2, 0); (1, 0); (2, 0)]%Z)
+  = map (map (fun r => set_mu_sigma r (powerRZ 2 5 * r_mu r) (powerRZ 2 5 * r_sigma r)))
+        (rate_core BTP P (1 / 12) true teams (Some [(2, 0); (1, 0); (2, 0)]%Z)).
+Proof.
+  intros. apply (C16_rate_btp_pow2_scale_flx53 ex erfc icdf (fun x => FloatScaleL.rnd (x * x)) 5%Z).
+  - apply C16_pow2_scale_flx53_square_ex.
+  - apply C16_gamma_default_pow2_scale_flx53. apply C16_pow2_scale_flx53_square_ex.
+Qed.
+
+(** IEEE 754 binary64 agrees with the rounded arithmetic above, operation by operation, whenever
+    the exact result is zero or not below 2^-1022 in magnitude (no subnormal result) and the
+    rounded result is below 2^1024 (no overflow): the real value of the double returned is the
+    [rnd] of the exact result *)
+Theorem C16_flx53_agrees_with_binary64_plus : forall x y : Bits.binary64,
+  Binary.is_finite 53 1024 x = true -> Binary.is_finite 53 1024 y = true ->
+  (Binary.B2R 53 1024 x + Binary.B2R 53 1024 y = 0 \/
+   Raux.bpow Zaux.radix2 (-1022) <= Rabs (Binary.B2R 53 1024 x + Binary.B2R 53 1024 y)) ->
+  Rabs (FloatScaleL.rnd (Binary.B2R 53 1024 x + Binary.B2R 53 1024 y)) < Raux.bpow Zaux.radix2 1024 ->
+  Binary.B2R 53 1024 (Bits.b64_plus BinarySingleNaN.mode_NE x y)
+    = FloatScaleL.rnd (Binary.B2R 53 1024 x + Binary.B2R 53 1024 y)
+  /\ Binary.is_finite 53 1024 (Bits.b64_plus BinarySingleNaN.mode_NE x y) = true.
+Proof. exact FloatScaleL.b64_plus_flx. Qed.
+Print Assumptions C16_flx53_agrees_with_binary64_plus.
+
+Theorem C16_flx53_agrees_with_binary64_minus : forall x y : Bits.binary64,
+  Binary.is_finite 53 1024 x = true -> Binary.is_finite 53 1024 y = true ->
+  (Binary.B2R 53 1024 x - Binary.B2R 53 1024 y = 0 \/
+   Raux.bpow Zaux.radix2 (-1022) <= Rabs (Binary.B2R 53 1024 x - Binary.B2R 53 1024 y)) ->
+  Rabs (FloatScaleL.rnd (Binary.B2R 53 1024 x - Binary.B2R 53 1024 y)) < Raux.bpow Zaux.radix2 1024 ->
+  Binary.B2R 53 1024 (Bits.b64_minus BinarySingleNaN.mode_NE x y)
+    = FloatScaleL.rnd (Binary.B2R 53 1024 x - Binary.B2R 53 1024 y)
+  /\ Binary.is_finite 53 1024 (Bits.b64_minus BinarySingleNaN.mode_NE x y) = true.
+Proof. exact FloatScaleL.b64_minus_flx. Qed.
+Print Assumptions C16_flx53_agrees_with_binary64_minus.
+
+Theorem C16_flx53_agrees_with_binary64_mult : forall x y : Bits.binary64,
+  Binary.is_finite 53 1024 x = true -> Binary.is_finite 53 1024 y = true ->
+  (Binary.B2R 53 1024 x * Binary.B2R 53 1024 y = 0 \/
+   Raux.bpow Zaux.radix2 (-1022) <= Rabs (Binary.B2R 53 1024 x * Binary.B2R 53 1024 y)) ->
+  Rabs (FloatScaleL.rnd (Binary.B2R 53 1024 x * Binary.B2R 53 1024 y)) < Raux.bpow Zaux.radix2 1024 ->
+  Binary.B2R 53 1024 (Bits.b64_mult BinarySingleNaN.mode_NE x y)
+    = FloatScaleL.rnd (Binary.B2R 53 1024 x * Binary.B2R 53 1024 y)
+  /\ Binary.is_finite 53 1024 (Bits.b64_mult BinarySingleNaN.mode_NE x y) = true.
+Proof. exact FloatScaleL.b64_mult_flx. Qed.
+Print Assumptions C16_flx53_agrees_with_binary64_mult.
+
+Theorem C16_flx53_agrees_with_binary64_div : forall x y : Bits.binary64,
+  Binary.is_finite 53 1024 x = true -> Binary.B2R 53 1024 y <> 0 ->
+  (Binary.B2R 53 1024 x / Binary.B2R 53 1024 y = 0 \/
+   Raux.bpow Zaux.radix2 (-1022) <= Rabs (Binary.B2R 53 1024 x / Binary.B2R 53 1024 y)) ->
+  Rabs (FloatScaleL.rnd (Binary.B2R 53 1024 x / Binary.B2R 53 1024 y)) < Raux.bpow Zaux.radix2 1024 ->
+  Binary.B2R 53 1024 (Bits.b64_div BinarySingleNaN.mode_NE x y)
+    = FloatScaleL.rnd (Binary.B2R 53 1024 x / Binary.B2R 53 1024 y)
+  /\ Binary.is_finite 53 1024 (Bits.b64_div BinarySingleNaN.mode_NE x y) = true.
+Proof. exact FloatScaleL.b64_div_flx. Qed.
+Print Assumptions C16_flx53_agrees_with_binary64_div.
+
+Theorem C16_flx53_agrees_with_binary64_sqrt : forall x : Bits.binary64,
+  (sqrt (Binary.B2R 53 1024 x) = 0 \/
+   Raux.bpow Zaux.radix2 (-1022) <= Rabs (sqrt (Binary.B2R 53 1024 x))) ->
+  Binary.B2R 53 1024 (Bits.b64_sqrt BinarySingleNaN.mode_NE x) = FloatScaleL.rnd (sqrt (Binary.B2R 53 1024 x)).
+Proof. exact FloatScaleL.b64_sqrt_flx. Qed.
+Print Assumptions C16_flx53_agrees_with_binary64_sqrt.
+
+(** non-vacuity of the four hypotheses of the first one: the doubles 1.0 and 0.5 *)
+Example C16_flx53_agrees_with_binary64_ex :
+  Binary.is_finite 53 1024 (Bits.b64_of_bits 4607182418800017408) = true /\
+  Binary.is_finite 53 1024 (Bits.b64_of_bits 4602678819172646912) = true /\
+  (Binary.B2R 53 1024 (Bits.b64_of_bits 4607182418800017408) + Binary.B2R 53 1024 (Bits.b64_of_bits 4602678819172646912) = 0 \/
+   Raux.bpow Zaux.radix2 (-1022)
+   <= Rabs (Binary.B2R 53 1024 (Bits.b64_of_bits 4607182418800017408) + Binary.B2R 53 1024 (Bits.b64_of_bits 4602678819172646912))) /\
+  Rabs (FloatScaleL.rnd (Binary.B2R 53 1024 (Bits.b64_of_bits 4607182418800017408)
+                         + Binary.B2R 53 1024 (Bits.b64_of_bits 4602678819172646912))) < Raux.bpow Zaux.radix2 1024.
+Proof. exact FloatScaleL.b64_plus_flx_ex_hyps. Qed.
